@@ -415,7 +415,7 @@ class Renamer:
     """Consistent renaming of the uuids of a container, directed by the RapidPro schema
     (positions, not string shapes).  `mode`: 'fresh' (new random uuids), 'permute' (a random
     permutation of the uuids already present), 'reverse' (the bijection that reverses the
-    sorted order of the uuids present), 'upper' (same uuids in upper case: a bijection whose
+    sorted order of the uuids present), 'near' (fresh uuids that differ in one block only), 'upper' (same uuids in upper case: a bijection whose
     images are not canonical uuid4 text)."""
 
     def __init__(self, rng, cont, mode="fresh"):
@@ -430,6 +430,17 @@ class Renamer:
             rng.shuffle(news)
         elif mode == "reverse":
             news = list(reversed(olds))
+        elif mode == "near":
+            # distinct uuids that agree everywhere except in ONE of the five blocks (an export whose uuids differ only in
+            # a counter): code that keys anything on a part of a uuid confuses them (seed C17-w6)
+            base = new_uuid(rng).split("-")
+            k = rng.randrange(5)
+            news = []
+            for i, _ in enumerate(olds):
+                b = list(base)
+                w = len(b[k])
+                b[k] = format(i + 1, "0%dx" % w)[-w:]
+                news.append("-".join(b))
         else:
             news = [o.upper() if o.upper() != o else new_uuid(rng) for o in olds]
         self.map = dict(zip(olds, news))
